@@ -115,7 +115,7 @@ def main():
     for pid in props:
         if pid in CLAIMED:
             tech, text, note, ref = CLAIMED[pid]
-            text = text + EXTRA.get(pid, "")
+            text = text + (" " + EXTRA[pid].strip() if pid in EXTRA else "")
             checks.append({
                 "property_id": pid,
                 "quick_cmd": f"./check {pid} quick",
